@@ -5,7 +5,7 @@ cd /repo || exit 2
 [ -z "$(git status --porcelain -- src tests Cargo.toml)" ] || { echo "EVAL: /repo not clean"; exit 2; }
 git apply "$P" || { echo "EVAL: patch does not apply"; exit 2; }
 for c in "$@"; do
-  OUT=$(cd /verif && ./check $c --tier ${TIER:-quick} 2>&1); RC=$?
+  OUT=$(cd ${EVAL_VERIF:-/verif} && ./check $c --tier ${TIER:-quick} 2>&1); RC=$?
   echo "EVAL check $c exit=$RC $(echo "$OUT" | grep -c '^VIOLATION') violation line(s)"
   echo "$OUT" | grep -E "^  C[0-9]+ \[" | head -4 | cut -c1-400
 done
